@@ -40,8 +40,23 @@ def run(ctx):
     fns = fb.find(pred=lambda f: QREC.match(f.record or "") and f.has_cfg() and not f.lambda_)
     ctx.floor("C16.fns", len(fns), 20, "ConcurrentExecutionQueue member instances")
     n1 = n2 = n3 = 0
+    # private helpers of the same class are part of the function that calls them (extracting one poll of the queue into a
+    # member must not change the verdict) and are then not analysed on their own; functions that operate on the event
+    # counter are rule subjects of their own and stay calls
+    igs = {}
+    absorbed = set()
     for fn in fns:
-        ig = IG(fn, inline=nin)
+        def plain_helper(fr, ev, callee, rec=fn.record):
+            if callee.record != rec or callee.lambda_:
+                return False
+            return not any(e["e"] == "call" and "_events" in pstr(e.get("this", {})) for _, e in callee.all_events())
+        igs[fn.key] = IG(fn, inline=plain_helper)
+        for fr in igs[fn.key].frames[1:]:
+            absorbed.add(fr.fn.key)
+    for fn in fns:
+        if fn.key in absorbed:
+            continue
+        ig = igs[fn.key]
         live = ig.live_nodes()
         inst = L.short(fn)
         ops = ev_ops(ig, live)
